@@ -25,6 +25,9 @@ CHECKS = {
     "C05": dict(level="model_checking", tech="symbolic execution of split() over an uninterpreted byte sequence (segment lists + LIA), z3 decides byte identity, timing and equality with the tokenizer segmentation",
                 text="Real split()/AudioRegion.split chain on inputs of <=4 (quick) / 6 (thorough) analysis windows with sample count, window size and window counts as unbounded integers; formats and rates enumerated.",
                 ref="§5 C05"),
+    "C06": dict(level="other", tech="exact floating-point SMT lemma (z3 QF_FP, bit-exact doubles) over the real split()/_duration_to_nb_windows + LIA wiring/accept-reject query with a recording tokenizer",
+                text="K: for every IEEE double duration/window in the stated range the window count that reaches the tokenizer lies in the statement's tolerance band (3 QF_FP lemmas through the real split()). D: with durations as exact rationals, the three counts reach the right tokenizer slots, are computed with the reader's block duration or analysis_window, and ValueError is raised exactly in the documented cases.",
+                ref="§5 C06", note="Trusted: z3's FloatingPoint theory as a model of CPython's binary64 arithmetic (RNE; ceil/floor as roundToIntegral); the D half idealises floats as rationals and abstracts the three conversions."),
     "C07": dict(level="model_checking", tech="symbolic execution through a numpy shim (sqrt/log10/square uninterpreted with instantiated axioms), one z3 query per configuration over symbolic bytes and threshold",
                 text="Real energy validator on windows of every width 1/2/4 x 1-3 (4) channels x 1-2 (3) samples per channel with every byte and the threshold symbolic, all channel selectors incl. out-of-range and unknown; decision == statement, monotone in the threshold, stateless.",
                 ref="§5 C07", note="Trusted in addition: the numpy shim (self-validated against numpy each run); float64 rounding inside numpy is outside the claim."),
